@@ -137,3 +137,45 @@ def shortest_accepted(ra, dfa=None, must_contain=None, usable=None):
                 seen[nx] = seen[(s, has)] + (a,)
                 dq.append(nx)
     return None
+
+
+def route_work(rule_name):
+    """The routes to one verdict agree: for a childless node of every element governed by the rule - content from a small
+    menu x attributes {valid, none, + a foreign one} - validate.tree(node) reports exactly what validate.node(node) and
+    Rule(rule).validate_rule(node) report, in both modes (the tree route is the one documents take)."""
+    from metapype.eml import validate
+    from mc.core import problem
+    acc = core.Acc()
+    elems = elements_for(rule_name)
+    n = 0
+    for name in elems[:3]:
+        for content in (valid_content(rule_name), None, "", " ", "some text", "0", "-1", "nan"):
+            for av in ("valid", "none", "foreign"):
+                attrs = {} if av == "none" else dict(valid_attrs(rule_name), **({"zzForeignAttr": "v"} if av == "foreign" else {}))
+                core.reset_store()
+                nd = Node(name, id="R")
+                nd.content = content
+                for k, v in attrs.items():
+                    nd.add_attribute(k, v)
+                case = {"rule": rule_name, "element": name, "content": content, "attributes": av, "routes": True}
+                res = {}
+                for route, fn in (("validate.node", lambda e_: validate.node(nd, e_)), ("validate.tree", lambda e_: validate.tree(nd, e_)),
+                                  ("Rule.validate_rule", lambda e_: mrule.Rule(rule_name).validate_rule(nd, e_))):
+                    try:
+                        errs = []
+                        fn(errs)
+                        codes = sorted(getattr(e_[0], "name", repr(e_[0])) for e_ in errs)
+                    except Exception as ex:  # noqa
+                        codes = "raised " + type(ex).__name__
+                    try:
+                        fn(None)
+                        ff = None
+                    except Exception as ex:  # noqa
+                        ff = type(ex).__name__
+                    res[route] = (codes, ff)
+                n += 1
+                if len({repr(v) for v in res.values()}) != 1:
+                    acc.add_problem(problem("routes_disagree", case, expected={"validate.node": res["validate.node"]},
+                                            observed={k: v for k, v in res.items() if k != "validate.node"}, rule=rule_name))
+    acc.count("route_cases", n)
+    return acc
